@@ -493,7 +493,9 @@ def two_phase(ctx, fxt):
              "every conversion that builds its output with FileGraphWriter's two-phase protocol counts degrees for exactly the "
              "nodes it later attaches edges to: the set of first arguments of incrementDegree equals the set of first arguments "
              "of addNeighbor in the same conversion (a transposing or symmetrising conversion that swaps the endpoints in only "
-             "one of the two passes overruns one node's edge range and leaves another's partly uninitialised). The order of the "
+             "one of the two passes overruns one node's edge range and leaves another's partly uninitialised); when the input is a "
+             "text file read once per pass, both passes perform the same extractions between reading a line and using it (they "
+             "accept the same lines). The order of the "
              "passes is not checked here: several converters run both passes from one loop over a phase counter.")
     n = 0
     for f in fxt.functions:
@@ -515,6 +517,31 @@ def two_phase(ctx, fxt):
         det = []
         if inc != add:
             det.append("degrees are counted for %s but edges are attached to %s" % (sorted(inc), sorted(add)))
+        # text inputs are read once per pass: both passes must accept exactly the same lines, i.e. perform the same
+        # extractions (`iss >> x`, each guarding a `continue`) between reading a line and using it
+        evs = sorted(((e.get("l") or 0, e) for b in f.get("blocks", []) for e in b["ev"] if e.get("k") == "call"), key=lambda x: x[0])
+        heads = [l for l, e in evs if e.get("name") == "getline"]
+        if heads:
+            def extractions(target_name):
+                out = []
+                for l, e in evs:
+                    if e.get("name") == target_name and (e.get("cls") or "").endswith("FileGraphWriter"):
+                        h = [x for x in heads if x < l]
+                        if not h:
+                            continue
+                        lo = max(h)
+                        xs = []
+                        for l2, e2 in evs:
+                            if lo < l2 < l and e2.get("name") == "operator>>":
+                                a = [S(y) for y in e2.get("a", [])]
+                                xs.append(a[-1] if a else "?")
+                        out.append(tuple(xs))
+                return out
+            xi, xa = extractions("incrementDegree"), extractions("addNeighbor")
+            if xi and xa and set(xi) != set(xa):
+                det.append("the degree pass extracts %s from a line before counting it, the edge pass %s before adding it: a "
+                           "line the edge pass skips still raises a degree, every later node's edges shift by one slot" % (
+                               sorted(set(xi)), sorted(set(xa))))
         ctx.ob("C12.convert.two-phase-agreement", f["qn"][-70:], not det, "; ".join(det), fn.loc(), f["key"][-60:], fnkey=f["key"])
     ctx.floor("two-phase conversions", n, 12)
 
